@@ -516,6 +516,10 @@ class ODF2MoinMoin(object):
                         buffer.append(text)
                 elif tag == "text:list":
                     buffer.append(self.listToString(node))
+                elif tag == "table:table":
+                    buffer.append(self.tableToString(node))
+                elif tag == "text:section":
+                    buffer.append(self.textToString(node))
                 else:
                     method = self.elements.get(tag)
                     if method:
